@@ -9,7 +9,7 @@
 (* predicates after every call.  It collects violations instead of         *)
 (* blocking, so that one run reports all of them.                          *)
 (***************************************************************************)
-EXTENDS Wire, Abstract, Json, IOUtils
+EXTENDS Wire, Abstract, Driver, Json, IOUtils
 
 Rec == ndJsonDeserialize(IOEnv.TRACE)
 
@@ -23,7 +23,7 @@ D0 == [alive |-> FALSE, orient |-> [rot |-> 0, mir |-> FALSE], sleeping |-> FALS
 Stat0 == [calls |-> 0, scn |-> 0, painted |-> 0, faults |-> 0, oob |-> 0, wireops |-> 0, done |-> 0]
 
 Init == s = [l |-> 1, sc |-> NoScn, w |-> WireNew(1, 1, "rec", FALSE, FALSE), d |-> D0, img |-> <<>>,
-             viol |-> <<>>, stat |-> Stat0, rowcap |-> 0]
+             viol |-> <<>>, stat |-> Stat0, rowcap |-> 0, dd |-> [none |-> TRUE], drift |-> <<>>, ndrift |-> 0, ncmp |-> 0]
 
 ---------------------------------------------------------------------------
 V(r, props, what) == <<[id |-> r.id, i |-> r.i, name |-> r.name, props |-> props, what |-> what]>>
@@ -71,7 +71,7 @@ FramingErrors(c0, cmds, wpp, isDT) ==
   LET n == Len(cmds)
       cl == ColLimit(c0.madctl, c0.W, c0.H)
       pl == PageLimit(c0.madctl, c0.W, c0.H)
-      Bad(i) ==
+      BadAt(i) ==
         LET e == cmds[i]  ph == (i - 1) % 3 IN
         IF ph = 0 THEN
            IF e.op # 42 THEN "expected set-column-address"
@@ -95,8 +95,8 @@ FramingErrors(c0, cmds, wpp, isDT) ==
                 IN IF ww > 0 /\ wh > 0 /\ wh <= MaxInt \div ww /\ np > ww * wh
                    THEN "pixel data larger than the window" ELSE ""
            ELSE ""
-      bad == {i \in 1 .. n : Bad(i) # ""}
-  IN IF bad = {} THEN "" ELSE Bad(CHOOSE i \in bad : \A j \in bad : i <= j)
+      bad == {i \in 1 .. n : BadAt(i) # ""}
+  IN IF bad = {} THEN "" ELSE BadAt(CHOOSE i \in bad : \A j \in bad : i <= j)
 
 Num2C(cmds) == Cardinality({i \in 1 .. Len(cmds) : cmds[i].op = 44})
 Num2A(cmds) == Cardinality({i \in 1 .. Len(cmds) : cmds[i].op = 42})
@@ -389,13 +389,29 @@ Step(r) ==
      IN [s EXCEPT !.l = @ + 1, !.w = w1, !.d = d1, !.stat = st1,
                   !.viol = @ \o JudgeOther(sc, d, w0, w1, r) \o JudgeAlways(sc, d1, w0, w1, r)]
 
-Next == s.l <= Len(Rec) /\ s' = Step(Rec[s.l])
+\* DRIFT (never an alarm): on the recording interfaces the interface-level traffic of the real code is compared
+\* with what the driver layer of the specification (Driver / Batch / Clip) predicts for the same call.
+IsRec(sc) == sc.kind = "display" /\ sc.cfg.iface \in {"rec", "rec_p8", "rec_p16"}
+NoRst(ops) == SelectSeq(ops, LAMBDA op : op[1] # "rst")
+WithDrift(s1, r) ==
+  IF r.k # "call" \/ ~IsRec(s.sc) THEN s1
+  ELSE IF r.name = "init" THEN
+       [s1 EXCEPT !.dd = IF r.res = "ok" THEN DNew(s.sc.cfg, Orient0(s.sc)) ELSE [none |-> TRUE]]
+  ELSE IF "none" \in DOMAIN s.dd \/ FaultHere(s.sc, r) \/ r.name \in {"test_image", "raw"} \/ s.d.skip \/ s1.d.skip THEN s1
+  ELSE LET e == DCall(s.dd, r.name, r.args)
+           same == IF e.panic THEN r.res = "panic" ELSE r.res = "ok" /\ NoRst(r.ops) = e.ops
+       IN [s1 EXCEPT !.dd = IF r.res = "ok" THEN e.d ELSE s.dd, !.ncmp = @ + 1,
+                     !.ndrift = IF same THEN @ ELSE @ + 1,
+                     !.drift = IF same \/ Len(@) >= 20 THEN @ ELSE Append(@, [id |-> r.id, i |-> r.i, name |-> r.name])]
+
+Next == s.l <= Len(Rec) /\ s' = WithDrift(Step(Rec[s.l]), Rec[s.l])
 Spec == Init /\ [][Next]_vars
 
 \* verdicts leave TLC through this (always true) invariant, evaluated in the final state
 Final == (s.l = Len(Rec) + 1) =>
            /\ PrintT(<<"VIOL", ToJson(s.viol)>>)
-           /\ PrintT(<<"STAT", ToJson(s.stat @@ [rowcap |-> s.rowcap, records |-> Len(Rec)])>>)
+           /\ PrintT(<<"STAT", ToJson(s.stat @@ [rowcap |-> s.rowcap, records |-> Len(Rec), driftcmp |-> s.ncmp, drift |-> s.ndrift])>>)
+           /\ PrintT(<<"DRIFT", ToJson(s.drift)>>)
 \* the whole trace was consumed
 Consumed == TLCGet("stats").diameter - 1 = Len(Rec)
 =============================================================================
@@ -502,13 +518,29 @@ Step(r) ==
      IN [s EXCEPT !.l = @ + 1, !.w = w1, !.d = d1, !.stat = st1,
                   !.viol = @ \o JudgeOther(sc, d, w0, w1, r) \o JudgeAlways(sc, d1, w0, w1, r)]
 
-Next == s.l <= Len(Rec) /\ s' = Step(Rec[s.l])
+\* DRIFT (never an alarm): on the recording interfaces the interface-level traffic of the real code is compared
+\* with what the driver layer of the specification (Driver / Batch / Clip) predicts for the same call.
+IsRec(sc) == sc.kind = "display" /\ sc.cfg.iface \in {"rec", "rec_p8", "rec_p16"}
+NoRst(ops) == SelectSeq(ops, LAMBDA op : op[1] # "rst")
+WithDrift(s1, r) ==
+  IF r.k # "call" \/ ~IsRec(s.sc) THEN s1
+  ELSE IF r.name = "init" THEN
+       [s1 EXCEPT !.dd = IF r.res = "ok" THEN DNew(s.sc.cfg, Orient0(s.sc)) ELSE [none |-> TRUE]]
+  ELSE IF "none" \in DOMAIN s.dd \/ FaultHere(s.sc, r) \/ r.name \in {"test_image", "raw"} \/ s.d.skip \/ s1.d.skip THEN s1
+  ELSE LET e == DCall(s.dd, r.name, r.args)
+           same == IF e.panic THEN r.res = "panic" ELSE r.res = "ok" /\ NoRst(r.ops) = e.ops
+       IN [s1 EXCEPT !.dd = IF r.res = "ok" THEN e.d ELSE s.dd, !.ncmp = @ + 1,
+                     !.ndrift = IF same THEN @ ELSE @ + 1,
+                     !.drift = IF same \/ Len(@) >= 20 THEN @ ELSE Append(@, [id |-> r.id, i |-> r.i, name |-> r.name])]
+
+Next == s.l <= Len(Rec) /\ s' = WithDrift(Step(Rec[s.l]), Rec[s.l])
 Spec == Init /\ [][Next]_vars
 
 \* verdicts leave TLC through this (always true) invariant, evaluated in the final state
 Final == (s.l = Len(Rec) + 1) =>
            /\ PrintT(<<"VIOL", ToJson(s.viol)>>)
-           /\ PrintT(<<"STAT", ToJson(s.stat @@ [rowcap |-> s.rowcap, records |-> Len(Rec)])>>)
+           /\ PrintT(<<"STAT", ToJson(s.stat @@ [rowcap |-> s.rowcap, records |-> Len(Rec), driftcmp |-> s.ncmp, drift |-> s.ndrift])>>)
+           /\ PrintT(<<"DRIFT", ToJson(s.drift)>>)
 \* the whole trace was consumed
 Consumed == TLCGet("stats").diameter - 1 = Len(Rec)
 =============================================================================
